@@ -8,6 +8,13 @@
 //!         | poly tx ty n x y x y ...            (vertices + the polyline's `translate` field)
 //!         | arc x y d start_mdeg sweep_mdeg | sector x y d start_mdeg sweep_mdeg   (milli-degrees)
 //!   style:  fill stroke width align            (fill/stroke: `-` or Rgb565 raw value; align 0=Inside 1=Center 2=Outside)
+//!
+//! Hook tokens (optional, always LAST on the op line; appended by `with_hooks` when a generator emits an op whose shape is an
+//! arc or a sector):  `hk tag lx ly rx ry` for an arc, `hk tag lx ly rx ry bk bnx bny` for a sector: what the real
+//! `PlaneSector::new(start, sweep)` (hook `verif_hooks::plane_sector`) and, for sectors, the real `sector::StyledPixelsIterator::new`
+//! (hook `verif_bevel`: bevel kind 0 none / 1 interior / 2 exterior and the normal of the bevel line) computed from the two angles.
+//! The model side needs them (the f32 trigonometry of the default build is not modelled); the harness side never reads them
+//! (it builds the primitive from the angles). Op lines without them (corpus / replay lines) parse as before and the model skips them.
 #![allow(dead_code)]
 use crate::common::*;
 use embedded_graphics::{
@@ -286,6 +293,38 @@ pub fn random_shape(rng: &mut Rng, scale: i64, max_size: i64) -> String {
         7 => format!("arc {} {} {} {} {}", x, y, sz(rng), rng.range(-720_000, 720_000), rng.range(-720_000, 720_000)),
         _ => format!("sector {} {} {} {} {}", x, y, sz(rng), rng.range(-720_000, 720_000), rng.range(-720_000, 720_000)),
     }
+}
+
+/// Marker token that starts the hook tokens of an op line.
+pub const HOOK_MARK: &str = "hk";
+
+/// `op` = `<stream> <shape> <style> ...`: if the shape (second token) is an arc or a sector and the line has no hook tokens yet,
+/// append them (see the module header); every other op is returned unchanged. The values come from the real code of THIS build.
+pub fn with_hooks(op: String) -> String {
+    use embedded_graphics::primitives::Styled;
+    let kind = op.split(' ').nth(1).unwrap_or("");
+    if (kind != "arc" && kind != "sector") || op.split(' ').any(|x| x == HOOK_MARK) {
+        return op;
+    }
+    let tail = {
+        let mut t = Toks::new(&op);
+        let _stream = t.str();
+        let shape = Shape::parse(&mut t);
+        let style = parse_style(&mut t);
+        match shape {
+            Shape::Arc(a) => {
+                let (tag, l, r) = embedded_graphics::verif_hooks::plane_sector(a.angle_start, a.angle_sweep);
+                format!(" {} {} {} {} {} {}", HOOK_MARK, tag, l[0], l[1], r[0], r[1])
+            }
+            Shape::Sector(s) => {
+                let (tag, l, r) = embedded_graphics::verif_hooks::plane_sector(s.angle_start, s.angle_sweep);
+                let (bk, bn, _) = Styled::new(s, style).pixels().verif_bevel();
+                format!(" {} {} {} {} {} {} {} {} {}", HOOK_MARK, tag, l[0], l[1], r[0], r[1], bk, bn[0], bn[1])
+            }
+            _ => String::new(),
+        }
+    };
+    op + &tail
 }
 
 pub fn random_style(rng: &mut Rng, max_width: i64) -> String {
